@@ -684,6 +684,92 @@ def _strip_tail_continue(stmts: list[ast.stmt]) -> list[ast.stmt]:
     return stmts
 
 
+def _empty_container(v: ast.AST) -> str | None:
+    """'list' / 'dict' / '<callee>' when v builds an empty container the loop then fills."""
+    if isinstance(v, ast.List) and not v.elts:
+        return "list"
+    if isinstance(v, ast.Dict) and not v.keys:
+        return "dict"
+    if isinstance(v, ast.Call) and not v.args and not v.keywords:
+        d = dotted(v.func) or ""
+        if d == "list":
+            return "list"
+        if d == "dict":
+            return "dict"
+        if d.split(".")[-1] == "List":
+            return "call:" + d
+    return None
+
+
+def _collect_loop(st: ast.For, out: list[ast.stmt]) -> bool:
+    """`xs = []` ... `for v in it: [temps;] [if c:] xs.append(e) | d[k] = e` (one statement per container, nothing else in
+    the body, nothing touching the containers in between)  ==  comprehensions.  Rewrites `out` in place."""
+    body = list(st.body)
+    flt = None
+    if len(body) == 1 and isinstance(body[0], ast.If) and not body[0].orelse:
+        flt = body[0].test
+        body = list(body[0].body)
+    temps = {}
+    fills: list[tuple[str, str, ast.AST, ast.AST | None]] = []   # (container, kind, value, key)
+    for b in body:
+        if isinstance(b, ast.Assign) and len(b.targets) == 1 and isinstance(b.targets[0], ast.Name) and not fills:
+            temps[b.targets[0].id] = b.value
+        elif isinstance(b, ast.Expr) and isinstance(b.value, ast.Call) and isinstance(b.value.func, ast.Attribute) and b.value.func.attr == "append" \
+                and isinstance(b.value.func.value, ast.Name) and len(b.value.args) == 1 and not b.value.keywords:
+            fills.append((b.value.func.value.id, "append", b.value.args[0], None))
+        elif isinstance(b, ast.Assign) and len(b.targets) == 1 and isinstance(b.targets[0], ast.Subscript) and isinstance(b.targets[0].value, ast.Name) \
+                and not isinstance(b.targets[0].slice, (ast.Slice, ast.Tuple)):
+            fills.append((b.targets[0].value.id, "setitem", b.value, b.targets[0].slice))
+        else:
+            return False
+    names = [f[0] for f in fills]
+    if not fills or len(set(names)) != len(names) or any(n in temps for n in names):
+        return False
+    # every container is initialised empty earlier in this block and not mentioned in between; mentioned once in the loop
+    inits: dict[str, int] = {}
+    for name, kind, _, _ in fills:
+        mentions = sum(1 for b in st.body for n in ast.walk(b) if isinstance(n, ast.Name) and n.id == name)
+        if mentions != 1 or any(isinstance(n, ast.Name) and n.id == name for n in ast.walk(st.iter)):
+            return False
+        idx = None
+        for j in range(len(out) - 1, -1, -1):
+            o = out[j]
+            if isinstance(o, ast.Assign) and len(o.targets) == 1 and isinstance(o.targets[0], ast.Name) and o.targets[0].id == name:
+                ec = _empty_container(o.value)
+                if ec is not None and ((kind == "append") == (ec != "dict")):
+                    idx = j
+                break
+            if any(isinstance(n, ast.Name) and n.id == name for n in ast.walk(o)):
+                break
+        if idx is None:
+            return False
+        inits[name] = idx
+
+    def subst(e: ast.AST) -> ast.AST:
+        e = clone(e)
+        for _ in range(len(temps) + 1):
+            class S(ast.NodeTransformer):
+                def visit_Name(self, node):  # noqa: N802
+                    if isinstance(node.ctx, ast.Load) and node.id in temps:
+                        return clone(temps[node.id])
+                    return node
+            e = S().visit(e)
+        return e
+
+    for name, kind, value, key in fills:
+        gen = ast.comprehension(target=clone(st.target), iter=clone(st.iter), ifs=[subst(flt)] if flt is not None else [], is_async=0)
+        init = out[inits[name]]
+        ec = _empty_container(init.value)
+        if kind == "append":
+            comp: ast.AST = ast.ListComp(elt=subst(value), generators=[gen])
+            if ec.startswith("call:"):
+                comp = ast.Call(func=clone(init.value.func), args=[comp], keywords=[])
+        else:
+            comp = ast.DictComp(key=subst(key), value=subst(value), generators=[gen])
+        out[inits[name]] = ast.fix_missing_locations(ast.copy_location(ast.Assign(targets=[ast.Name(id=name, ctx=ast.Store())], value=comp), init))
+    return True
+
+
 def _loops_to_comprehensions(stmts: list[ast.stmt]) -> list[ast.stmt]:
     """`xs = []` ... `for v in it: [temps;] xs.append(e)`  ==  `xs = [e for v in it]` (nothing touches xs in between)."""
     out: list[ast.stmt] = []
@@ -695,36 +781,10 @@ def _loops_to_comprehensions(stmts: list[ast.stmt]) -> list[ast.stmt]:
         if isinstance(st, ast.Try):
             for h in st.handlers:
                 h.body = _loops_to_comprehensions(h.body)
-        if isinstance(st, ast.For) and not st.orelse and st.body and isinstance(st.body[-1], ast.Expr) and isinstance(st.body[-1].value, ast.Call):
-            call = st.body[-1].value
-            if isinstance(call.func, ast.Attribute) and call.func.attr == "append" and isinstance(call.func.value, ast.Name) and len(call.args) == 1 \
-                    and not call.keywords and all(isinstance(b, ast.Assign) and len(b.targets) == 1 and isinstance(b.targets[0], ast.Name) for b in st.body[:-1]):
-                name = call.func.value.id
-                # find the initialisation `name = []` earlier in this block with no mention of `name` in between
-                idx = None
-                for j in range(len(out) - 1, -1, -1):
-                    o = out[j]
-                    if isinstance(o, ast.Assign) and len(o.targets) == 1 and isinstance(o.targets[0], ast.Name) and o.targets[0].id == name and \
-                            ((isinstance(o.value, ast.List) and not o.value.elts) or (isinstance(o.value, ast.Call) and dotted(o.value.func) == "list" and not o.value.args)):
-                        idx = j
-                        break
-                    if any(isinstance(n, ast.Name) and n.id == name for n in ast.walk(o)):
-                        break
-                mentions_in_loop = sum(1 for b in st.body for n in ast.walk(b) if isinstance(n, ast.Name) and n.id == name)
-                temps = {b.targets[0].id: b.value for b in st.body[:-1]}
-                if idx is not None and mentions_in_loop == 1 and len(temps) == len(st.body) - 1:
-                    elt = clone(call.args[0])
-                    for _ in range(len(temps) + 1):
-                        class S(ast.NodeTransformer):
-                            def visit_Name(self, node):  # noqa: N802
-                                if isinstance(node.ctx, ast.Load) and node.id in temps:
-                                    return clone(temps[node.id])
-                                return node
-                        elt = S().visit(elt)
-                    comp = ast.ListComp(elt=elt, generators=[ast.comprehension(target=clone(st.target), iter=clone(st.iter), ifs=[], is_async=0)])
-                    out[idx] = ast.copy_location(ast.Assign(targets=[ast.Name(id=name, ctx=ast.Store())], value=comp), out[idx])
-                    ast.fix_missing_locations(out[idx])
-                    continue
+        if isinstance(st, ast.For) and not st.orelse and st.body:
+            conv = _collect_loop(st, out)
+            if conv:
+                continue
         if isinstance(st, ast.For) and not st.orelse and st.body:
             body = list(st.body)
             flt = None
